@@ -113,6 +113,40 @@ let run_disp zlb_recv toks =
     Buffer.contents out
   | _ -> "badline"
 
+(* full <lns|lac> <type>:<tid>:<sid>:<ns>:<a|nr> ...   (see the dispatch harness)
+   the handler is opaque to the model: no replies; StopCCN removes the tunnel.  Dispatch at time 0, Tick at 90
+   (minutes; zlb 60, rto 120): the owed acknowledgement shows up as a ZLB carrying the current Nr. *)
+let run_full toks =
+  match toks with
+  | _role :: ops ->
+    let n = ref { n_known = true; n_ep = new_endpoint (zi 120) (zi 240) (zi 5) (zi 60) (zi 16) Z0 Z0 } in
+    let out = Buffer.create 128 in
+    List.iter (fun op ->
+        match String.split_on_char ':' op with
+        | [ty; tid; sid; ns; nr] ->
+          let known = !n.n_known in
+          let tid_ok = (tid = "7") && ty <> "sccrq" in
+          let ack = if nr = "a" then !n.n_ep.e_ch.c_ns else zi (ios nr) in
+          let p = { k_body = (if ty = "zlb" then None else Some (zi 1)); k_sid = zi (ios sid);
+                    k_ns = zi (ios ns); k_nr = ack } in
+          let m = { m_tid_ok = tid_ok; m_pkt = p; m_replies = []; m_removes = (ty = "stop") } in
+          let before = List.length !n.n_ep.e_sent in
+          n := node_step !n (NMsg (m, Z0));
+          let mid = List.length !n.n_ep.e_sent in
+          n := node_step !n (NTick (zi 90));
+          let nr_after = !n.n_ep.e_ch.c_nr in
+          let sent = !n.n_ep.e_sent in
+          let acked = ref false in
+          List.iteri (fun i q ->
+              if i >= before && i < mid && q.k_nr = nr_after then acked := true;
+              if i >= mid && q.k_body = None && q.k_nr = nr_after then acked := true) sent;
+          let a = if (not known) || (not tid_ok) || ty = "zlb" then "*" else if !acked then "1" else "0" in
+          Buffer.add_string out (Printf.sprintf "K%s:N%d:A%s " (if known then "1" else "0") (iz nr_after) a)
+        | _ -> Buffer.add_string out "badop ") ops;
+    Buffer.add_string out "|";
+    Buffer.contents out
+  | _ -> "badline"
+
 let () =
   let lines = read_lines Sys.argv.(1) in
   let variant = if Array.length Sys.argv > 3 then Sys.argv.(3) else "repaired" in
@@ -122,6 +156,7 @@ let () =
       | [] -> ()
       | "pair" :: rest -> print_endline (run_pair zlb_recv rest)
       | "disp" :: rest -> print_endline (run_disp zlb_recv rest)
+      | "full" :: rest -> print_endline (run_full rest)
       | ["sccrq"; ns; nr] ->
         (* dispatch.go:139-169: fresh channel (PeerRWS 16), Recv(h.Ns, h.Nr) with the result ignored, Send(SCCRP) *)
         let e = new_endpoint Z0 Z0 Z0 Z0 (zi 16) Z0 Z0 in
